@@ -15,7 +15,7 @@
 using namespace pbt;
 
 enum { SCHED_NOW = 0, SCHED_FUTURE = 1, CANCEL = 2, SLEEP = 3, REF = 4 };
-static const uint64_t DELTAS[] = {1000ull, 5000000ull, 1000000000ull, 3600ull * 1000000000ull}; // 1us 5ms 1s 1h
+static const uint64_t DELTAS[] = {1000ull, 5000000ull, 1000000000ull, 3600ull * 1000000000ull, 0}; // 1us 5ms 1s 1h; class 4 = absolute time UINT64_MAX ("never")
 static const uint64_t SLEEPS[] = {1000ull, 1000000ull, 10000000ull, 50000000ull};               // <=100ms in total per thread
 static const int MAXT = 40;
 
@@ -28,7 +28,7 @@ static Case gen_case() {
         uint64_t cl = pick(0, nclients - 1);
         switch (weighted({5, 5, 3, 2, 1})) {
         case 0: return mkop(SCHED_NOW, {cl});
-        case 1: return mkop(SCHED_FUTURE, {cl, pick(0, 3)});
+        case 1: return mkop(SCHED_FUTURE, {cl, pick(0, 4)});
         case 2: return mkop(CANCEL, {cl, pick(0, 7)});
         case 3: return mkop(SLEEP, {cl, pick(0, 3)});
         default: return mkop(REF, {cl});
@@ -63,7 +63,7 @@ struct World {
     int destroyed_by = -1;
     bool all_done = false;
     bool switch_inside_api = false;
-    int cancels = 0, canceled_at_release = 0, runs = 0, chained = 0;
+    int cancels = 0, canceled_at_release = 0, runs = 0, chained = 0, never_tasks = 0, chained_from_cancel = 0;
     uint64_t slept[8] = {0};
     int ncl = 1;
 };
@@ -105,6 +105,16 @@ static void task_fn(struct aws_task *task, void *arg, enum aws_task_status statu
         if (!t->cancelled) {
             w.canceled_at_release++;
             if (!t->in_release) ctx.note_fail(fmt("task %d got CANCELED on t%d although it was not cancelled and no release was in progress there", t->id, me));
+        } else if (t->chain && me == 1 && w.ntasks < MAXT) {
+            // a cancellation delivered by the scheduler thread: the callback may use the scheduler again
+            // ("tasks may be scheduled ... from any thread"); the scheduler cannot be freed before its thread is joined
+            TaskRec *n = &w.tasks[w.ntasks];
+            n->id = w.ntasks++;
+            n->scheduled = true;
+            n->owner = -3;
+            aws_task_init(&n->task, task_fn, n, "chained-from-cancel");
+            w.chained_from_cancel++;
+            aws_thread_scheduler_schedule_now(w.sched, &n->task);
         }
     }
 }
@@ -161,9 +171,10 @@ static void *client(void *p) {
             } else {
                 uint64_t now = 0;
                 aws_high_res_clock_get_ticks(&now);
-                int dc = (int)(op.arg(1) % 4);
-                t->when = now + DELTAS[dc];
-                t->far = dc == 3;
+                int dc = (int)(op.arg(1) % 5);
+                t->when = dc == 4 ? UINT64_MAX : now + DELTAS[dc];
+                t->far = dc >= 3;
+                if (dc == 4) w.never_tasks++;
                 if (t->far) my_far.push_back(t->id);
                 aws_thread_scheduler_schedule_future(w.sched, &t->task, t->when);
             }
@@ -255,6 +266,8 @@ static void run(const Case &c, Ctx &ctx) {
     if (w.canceled_at_release) ctx.tag("pending_at_final_release");
     if (w.runs) ctx.tag("some_task_ran");
     if (w.chained) ctx.tag("chained_task");
+    if (w.chained_from_cancel) ctx.tag("rescheduled_from_cancel_callback");
+    if (w.never_tasks) ctx.tag("task_at_uint64_max");
     if (w.destroyed_by != 0) ctx.tag("destroyed_by_client");
     ctx.nontrivial = w.switch_inside_api && w.ntasks >= 2;
 }
